@@ -414,7 +414,13 @@ def run(ctx):
     # codec and reader errors surface
     D.error_discipline(ctx, "R-C15.11", scope=lambda f: f.startswith(("journal::entry::", "<journal::", "journal::reader", "journal::batch_reader", "journal::writer::")))
 
+    # ---- R-C15.14 what is stored under a compression tag is that codec's output: inside the Lz4 arm of the item encoder
+    #      every payload value comes from lz4_flex::compress (the decoder decompresses whatever carries the tag)
+    payload_matches_tag(ctx, "R-C15.14")
+
     # ---- borrowed obligations (mechanisms owned by other properties that this property's verdict also rests on)
+    # a decoded record comes back into the keyspace whose id it carries (replay looks the keyspace up per record)
+    ctx.borrow("C04", ["R-C04.14"], "R-C15.13")
     # a decoded record is replayed as the operation it encodes (tombstone kinds are not interchangeable)
     ctx.borrow("C04", ["R-C04.1"], "R-C15.12")
     # items of a batch keep their journal order on replay (same bytes per key)
@@ -422,3 +428,43 @@ def run(ctx):
     # damage handling: fatal only after a look
     ctx.borrow("C03", ["R-C03.3"], "R-C15.10", only_instances=["decode-failure-is-fatal"])
 
+
+
+def payload_matches_tag(ctx, rule):
+    fn = ctx.fn("journal::entry::serialize_marker_item", rule)
+    if not fn:
+        return
+    og = ctx.og(fn)
+    sws = []
+    for b, blk in enumerate(fn.blocks):
+        if blk["cleanup"] or blk["t"]["k"] != "switch":
+            continue
+        cond, labels = A.switch_info(fn, b)
+        if cond is not None and cond.k == "discr" and any("Lz4" in ns for ns in labels.values()) and any(x.k == "param" for x in A.walk(cond)):
+            sws.append((b, labels))
+    if not sws:
+        # built without the lz4 feature there is a single arm and nothing to decide
+        has_lz4 = any("lz4_flex" in A.cname(t) for _, t in fn.calls())
+        ctx.ob(rule, fn, "compression-arm-switch-present", not has_lz4, "no Lz4 arm in this build" if not has_lz4 else
+               "serialize_marker_item calls lz4 but does not switch on its compression parameter", kind="anchor" if has_lz4 else "rule", nontrivial=False)
+        return
+    b, labels = sws[0]
+    lz = [tg for tg, ns in labels.items() if "Lz4" in ns]
+    other = [tg for tg, ns in labels.items() if ns and "Lz4" not in ns]
+    region = A.reach(fn, lz) - A.reach(fn, other)
+    comp = [x for x in region if fn.term(x)["k"] == "call" and A.cname(fn.term(x)).startswith("lz4_flex::compress")]
+    raw = []
+    n = 0
+    for x in sorted(region):
+        for st in fn.blocks[x]["s"]:
+            if st["p"]["p"] or "Cow<" not in fn.local_ty(st["p"]["l"]):
+                continue
+            n += 1
+            t = og.of_rvalue(st["rv"], site=x) if hasattr(og, "of_rvalue") else None
+            if t is None or not any(y.k == "call" and y.a[0].startswith("lz4_flex::compress") for y in A.walk(t)):
+                raw.append(fn.loc(x))
+    ok = bool(comp) and n >= 1 and not raw
+    ctx.ob(rule, fn, "lz4-tagged-payload-is-always-the-compressed-bytes", ok,
+           "inside the Lz4 arm the payload is lz4_flex::compress(value) on every path (%d payload assignment(s))" % n if ok else
+           "inside the Lz4 arm a payload is built that is not the output of lz4_flex::compress (at %s; compress calls: %d): the record carries the Lz4 tag, the decoder decompresses it and fails — taken for a torn tail, the journal is cut there" % (raw[:2], len(comp)),
+           fn.loc(lz[0]) if lz else "")
